@@ -86,7 +86,9 @@ func (p *Program) verifyUnitOnce(u *Unit, splitVal *big.Int, sitePrefix string) 
 			x.errorf("%s: requires %s: %v", u.Name, r.Label, err)
 			continue
 		}
+		n0 := len(st.pc)
 		st.assume(t)
+		x.tagFrom(st, n0, "req:"+r.Label)
 	}
 	if splitVal != nil {
 		t, err := x.evalTerm(env, c.Split)
@@ -154,13 +156,35 @@ func (p *Program) verifyUnitOnce(u *Unit, splitVal *big.Int, sitePrefix string) 
 				o.st.assume(t)
 			}
 		}
+		ensTerms := map[string]*Term{}
 		for _, e := range c.Ensures {
 			t, err := x.evalBool(renv, e.Expr)
 			if err != nil {
 				x.errorf("%s: ensures %s: %v", u.Name, e.Label, err)
 				continue
 			}
+			nObl := len(x.obls)
 			x.oblige(o.st, "post", e.Label, group, t, e.Src)
+			// "by <label>: ens:<earlier label>" lets a clause use an ensures clause declared (and proved) before it
+			if len(x.obls) > nObl && !x.obls[nObl].Goal.IsTrue() {
+				for _, h := range c.Hints {
+					if h.Label != e.Label && h.Label != "post:"+e.Label {
+						continue
+					}
+					for _, f := range h.From {
+						if strings.HasPrefix(f, "ens:") {
+							if et, ok := ensTerms[f[4:]]; ok {
+								x.obls[nObl].Assumes = append(x.obls[nObl].Assumes, et)
+							} else {
+								x.errorf("%s: by %s: %s is not an earlier ensures clause", u.Name, e.Label, f)
+							}
+						}
+					}
+				}
+			}
+			if e.Label != "" {
+				ensTerms[e.Label] = t
+			}
 		}
 		// frame: world components not in modifies must be unchanged
 		if !c.ModAll {
@@ -467,7 +491,9 @@ func (x *Exec) loopHeader(f *Frame, st *State, b *ssa.BasicBlock, prev *ssa.Basi
 		if err != nil {
 			continue
 		}
+		n0 := len(st.pc)
 		st.assume(t)
+		x.tagFrom(st, n0, "inv:"+iv.Label)
 	}
 	return nil, false
 }
@@ -714,6 +740,8 @@ func (x *Exec) applyUses(st *State, env *Env) {
 			body = Forall(bvs[i], body)
 		}
 		x.assumed["lemma (universal closure) "+lu.Name] = true
+		n0 := len(st.pc)
 		st.assume(body)
+		x.tagFrom(st, n0, "uses:"+lu.Name)
 	}
 }
